@@ -11,10 +11,9 @@ use text2num::verif::{tokenize, BasicToken};
 use text2num::{find_numbers, replace_numbers_in_stream, replace_numbers_in_text, LangInterpreter, Replace, Token};
 
 use crate::driver::{guarded, Check, RunResult, Stats, Violation};
-use crate::pools::{langs, threshold_of, Pool, POOLS, THRESHOLDS};
+use crate::pools::{threshold_of, Pool, POOLS, THRESHOLDS};
 use crate::rng::{Fp, Rng};
 use crate::stream::*;
-use crate::with_lang;
 
 #[derive(Clone, Debug, Serialize, Deserialize)]
 pub struct Case {
@@ -494,7 +493,7 @@ impl Check for C02 {
     }
 
     fn execute(&self, case: &Case, stats: &mut Stats) -> RunResult {
-        with_lang!(langs(), case.lang, case.concrete, l => exec(l, case, stats))
+        crate::with_fresh_lang!(case.lang, case.concrete, l => exec(l, case, stats))
     }
 
     fn shrink(&self, case: &Case) -> Vec<Case> {
